@@ -374,6 +374,8 @@ def decide(prop, tier, seed, mod, cases, agg, crashes, timed_out, t0, findings, 
         reasons.append('required code not reached: ' + ','.join(missing))
     if missing_counts:
         reasons.append('required events not observed: ' + ','.join(missing_counts))
+    if hasattr(mod, 'extra_reasons'):
+        reasons += list(mod.extra_reasons(build_info) or [])
     if len(sigs) < min_nontrivial:
         reasons.append('too few non-trivial cases (%d < %d)' % (len(sigs), min_nontrivial))
 
